@@ -8,7 +8,7 @@
     - [ShSearch]: the same return (or both run to the end with the store untouched) — no premise;
     - [ShCollectSort]: the collected slices are permutations of each other, hence equal after any sorter whose
       result is a function of the multiset — no premise. *)
-From Coq Require Import List String Bool Permutation.
+From Coq Require Import List String Bool Permutation Sorting.Sorted.
 From Teleport Require Import Model.MapLoops Model.MapLoopsIR Proofs.MapLoops.
 Import ListNotations.
 Local Open Scope list_scope.
@@ -54,6 +54,24 @@ Proof.
     eapply find_none in F; [|rewrite <- in_rev; eapply Permutation_in; [apply Permutation_sym; exact P|exact I']].
     cbv beta in F. congruence.
   - reflexivity.
+Qed.
+
+(** ** a sort by a total order on injective keys is a function of the multiset
+
+    [le x y] = "y is not less than x" for the comparator's order on keys ([sort.Slice]'s contract: afterwards no later
+    element is less than an earlier one); [le] antisymmetric (the order is total: two keys neither of which is less
+    than the other are equal) and [key] injective make the sorted arrangement of a given multiset unique. *)
+Theorem keyed_sort_is_canonical {A K : Type} (key : A -> K) (le : K -> K -> Prop)
+    (le_antisym : forall x y, le x y -> le y x -> x = y)
+    (key_inj : forall a b, key a = key b -> a = b)
+    (sort : list A -> list A)
+    (sort_ok : forall l, Permutation (sort l) l /\ Sorted.StronglySorted (fun a b => le (key a) (key b)) (sort l)) :
+  forall a b, Permutation a b -> sort a = sort b.
+Proof.
+  intros a b P. destruct (sort_ok a) as [Pa Sa]. destruct (sort_ok b) as [Pb Sb].
+  apply (sorted_perm_unique_gen (fun x y => le (key x) (key y))); [|exact Sa|exact Sb|].
+  - intros x y _ _ H1 H2. apply key_inj, le_antisym; assumption.
+  - eapply Permutation_trans; [exact Pa|]. eapply Permutation_trans; [exact P|]. apply Permutation_sym. exact Pb.
 Qed.
 
 Section Soundness.
@@ -440,11 +458,11 @@ Section Soundness.
     destruct (forallb _ rs) eqn:D; [|discriminate]. repeat split; auto. exists rs. auto.
   Qed.
 
-  Lemma classify_collect_inv kvar vvar ranged after t s by_type :
-    classify_tree kvar vvar ranged after t = Some (ShCollectSort s by_type) ->
+  Lemma classify_collect_inv kvar vvar ranged after t s cmp :
+    classify_tree kvar vvar ranged after t = Some (ShCollectSort s cmp) ->
     has_leaf is_store t = false /\ has_leaf is_return t = false /\ has_leaf is_panic_leaf t = false /\
     (exists ws, tree_writes t = s :: ws /\ all_same (s :: ws) = true) /\
-    exists rest, after = SSort s by_type :: rest.
+    comparator_ok cmp = true /\ exists rest, after = SSort s cmp :: rest.
   Proof.
     unfold classify_tree. intro C. destruct (tree_wf kvar vvar ranged t); [|discriminate]. cbn [negb] in C.
     destruct (has_leaf is_store t) eqn:LS, (has_leaf is_append t) eqn:LA, (has_leaf is_return t) eqn:LR,
@@ -452,7 +470,8 @@ Section Soundness.
     destruct (tree_writes t) as [|w ws] eqn:TW; [classify_cases C|].
     destruct (all_same (w :: ws)) eqn:AS; [|discriminate].
     destruct after as [|[| | | | | | |s' bt|] rest]; try discriminate.
-    destruct (String.eqb w s') eqn:E; [|discriminate]. apply String.eqb_eq in E. inversion C; subst.
+    destruct (String.eqb w s') eqn:E; [|discriminate]. cbn [andb] in C.
+    destruct (comparator_ok bt) eqn:CO; [|discriminate]. apply String.eqb_eq in E. inversion C; subst.
     repeat split; auto; eexists; eauto.
   Qed.
 
@@ -503,8 +522,8 @@ Section Soundness.
 
   (** [ShCollectSort]: the loop always runs to the end, no map changes, slices other than [s] do not change, the
       collected slice is the same up to permutation — hence equal after a sorter that is a function of the multiset *)
-  Theorem classified_collect_sound kvar vvar ranged after t s by_type :
-    classify_tree kvar vvar ranged after t = Some (ShCollectSort s by_type) ->
+  Theorem classified_collect_sound kvar vvar ranged after t s cmp :
+    classify_tree kvar vvar ranged after t = Some (ShCollectSort s cmp) ->
     forall inv st l l', Permutation l l' ->
     exists x y, run_loop ev t kvar vvar inv l st = RCont x /\ run_loop ev t kvar vvar inv l' st = RCont y /\
       (forall m, get_map m x = get_map m y) /\
@@ -512,12 +531,12 @@ Section Soundness.
       Permutation (get_slice s x) (get_slice s y) /\
       (forall sorter : list val -> list val, (forall a b, Permutation a b -> sorter a = sorter b) ->
          sorter (get_slice s x) = sorter (get_slice s y)) /\
-      exists rest, after = SSort s by_type :: rest.
+      comparator_ok cmp = true /\ exists rest, after = SSort s cmp :: rest.
   Proof.
     intros C inv st l l' P.
     pose proof (wf_reads _ _ _ _ (classify_wf _ _ _ _ _ _ C)) as W.
     rewrite !(run_loop_effs t kvar vvar inv st W) by apply agree_refl.
-    destruct (classify_collect_inv _ _ _ _ _ _ _ C) as (LS & LR & LP & (ws & TW & AS) & AF).
+    destruct (classify_collect_inv _ _ _ _ _ _ _ C) as (LS & LR & LP & (ws & TW & AS) & CO & AF).
     assert (H : forall f, In f (effs t kvar vvar inv st l) -> f = FSkip \/ exists s0 v, f = FAppend s0 v).
     { intros f I. apply effs_in in I as (e & _ & ->).
       pose proof (no_store_leaf t (entry_env kvar vvar inv e) st LS) as X1.
@@ -536,7 +555,7 @@ Section Soundness.
       unfold effs in Z. rewrite !Z. reflexivity.
     - apply (S s).
     - intros sorter HS. apply HS, (S s).
-    - exact AF.
+    - split; [exact CO|exact AF].
   Qed.
   (** ** 6. what a classified loop computes *)
 
